@@ -273,6 +273,21 @@ def judge(case):
             want = [f'{case["which"]} {case["name"]}', '{'] + list(content or []) + ['};', '']
             if lines != want:
                 bad('struct', f'{lines} expected {want}')
+        elif kind == 'ctor-absent-params':
+            # absent optional parameters (None entries) of a constructor are skipped: same text as without them, and
+            # the caller's list is left alone
+            struct = G.Struct('S')
+            pattern = case['pattern']
+            real = mk_params(PARAM_KINDS[:sum(1 for x in pattern if x)])
+            it = iter(real)
+            given = [next(it) if x else None for x in pattern]
+            snapshot = list(given)
+            ctor = G.Constructor(struct, params=given, explicit=case['explicit'], contents='x();')
+            ref = G.Constructor(struct, params=list(real), explicit=case['explicit'], contents='x();')
+            if (str(ctor.as_decl), str(ctor.as_def)) != (str(ref.as_decl), str(ref.as_def)):
+                bad('absent-params-change-the-rendering', f'pattern={pattern}: {str(ctor.as_decl)!r} expected {str(ref.as_decl)!r}')
+            if len(given) != len(snapshot) or any(a is not b for a, b in zip(given, snapshot)):
+                bad('callers-param-list-changed', f'pattern={pattern}')
         elif kind == 'block-contents':
             # contents whose string form is more than their plain lines (a comment, a block with a header, an indented
             # block, blocks nested in blocks): a struct / class / namespace renders them UNCHANGED, i.e. as str(contents)
@@ -504,6 +519,10 @@ def other_cases():
     for first, second, how in itertools.product(('struct', 'class', 'namespace'), ('struct', 'class', 'namespace'),
                                                 ('append', 'iadd')):
         yield {'kind': 'sharing', 'first': first, 'second': second, 'how': how}
+    for n in range(0, 6):
+        for pattern in itertools.product((True, False), repeat=n):
+            for explicit in (False, True):
+                yield {'kind': 'ctor-absent-params', 'pattern': list(pattern), 'explicit': explicit}
     for what, form, later in itertools.product(('struct', 'class', 'namespace'),
                                                ('plain', 'comment', 'header', 'indented', 'nested-header', 'section'), (False, True)):
         yield {'kind': 'block-contents', 'what': what, 'form': form, 'later': later}
